@@ -1506,6 +1506,10 @@ class Interp:
                 else:
                     out_[self.eval(k)] = self.eval(v)
             return out_
+        if isinstance(e, ast.NamedExpr) and isinstance(e.target, ast.Name):
+            v_ = self.eval(e.value)
+            self.assign(e.target, v_)  # `(name := value)`: bound in the enclosing function's scope, value of the expression
+            return v_
         raise Undecided(f"expression {type(e).__name__}")
 
     def _int(self, node, default):
